@@ -26,7 +26,7 @@ EXPLANATION = (
 )
 
 
-def _noise_mode_reads(ctx, prog, R):
+def _noise_mode_reads(ctx, prog, R, only_fn=None):
     """A target found to be noisy by the start-up test raises OS[uncertainty_handling_level] at run time; the logger's
     ``noise_flag`` (SD column present) is fixed when the logger is built.  A branch of a BADS method that decides the noise
     mode from the frozen flag treats an auto-detected stochastic target as deterministic."""
@@ -48,7 +48,7 @@ def _noise_mode_reads(ctx, prog, R):
     cur_fn = [None]
     level_guarded, frozen_tests = set(), []
     for fn in prog.functions():
-        if fn.cls is not R.bads or fn.name == "__init__":
+        if fn.cls is not R.bads or fn.name == "__init__" or (only_fn is not None and fn is not only_fn):
             continue
         cur_fn[0] = fn
         for n in ast.walk(fn.node):
